@@ -7,8 +7,9 @@ abbrev Bytes := List Nat
 side: `data_received`, `_parse_header`, `connection_lost`.  Both protocol classes have the same logic
 (`TitanClientProtocol` has no `decode_text` switch: it always decodes, `decodeText = true`).
 
-Parameters (opaque library behaviour, `Env`): UTF-8 decoding of the header line, `int()` on the
-status token, the text/* test on the meta and `bytes.decode(charset)` on the body.
+Parameters (opaque library behaviour, `Env`): UTF-8 decoding of the header line, the text/* test on
+the meta and `bytes.decode(charset)` on the body.  The status token is concrete: exactly two ASCII
+digits (`len == 2 and isascii() and isdigit()`), so `int()` is not a parameter.
 Environment contract (asyncio): nothing is delivered after `transport.close()` or after the connection
 is lost; an exception escaping `data_received` makes the transport call `connection_lost(exc)`. -/
 
@@ -48,8 +49,6 @@ def findCRLFTR (l : Bytes) : Option Nat := findGo l 0
 structure Env where
   /-- `header_line.decode("utf-8")` succeeds? -/
   utf8Ok : Bytes → Bool
-  /-- `int(token)` for the text before the first space of the header -/
-  parseInt : Bytes → Option Int
   /-- meta says text/* (or is empty) -/
   isText : Bytes → Bool
   /-- decoding the body with the charset named in the meta:
@@ -59,14 +58,14 @@ structure Env where
 inductive Fut where
   | pending
   /-- `body = some b`: the bytes after the first CRLF; `decoded`: they were decoded with the declared charset -/
-  | response (status : Int) (mta : Bytes) (body : Option Bytes) (decoded : Bool)
+  | response (status : Nat) (mta : Bytes) (body : Option Bytes) (decoded : Bool)
   | error (kind : String)
 deriving Repr, DecidableEq
 
 structure CSt where
   buf : Bytes := []
   headerReceived : Bool := false
-  status : Option Int := none
+  status : Option Nat := none
   mta : Bytes := []
   fut : Fut := .pending
   closeReq : Bool := false      -- the protocol called `transport.close()`
@@ -89,12 +88,29 @@ def splitSpace (h : Bytes) : Bytes × Bytes :=
   | (a, []) => (a, [])
   | (a, _ :: b) => (a, b)
 
+def isDigit (b : Nat) : Bool := 48 ≤ b ∧ b ≤ 57
+
+/-- the status token: exactly two ASCII digits -/
+def statusOf : Bytes → Option Nat
+  | [a, b] => if isDigit a ∧ isDigit b then some ((a - 48) * 10 + (b - 48)) else none
+  | _ => none
+
+/-- the header line has a SP separator (`len(parts) == 2`) -/
+def hasSep (h : Bytes) : Bool := h.contains 32
+
+/-- a bare CR or LF in the meta -/
+def metaBad (m : Bytes) : Bool := m.contains 13 || m.contains 10
+
+/-- meta is mandatory for 1x–3x; it never contains CR or LF -/
+def headerBad (h : Bytes) (st : Nat) : Bool := (!hasSep h && decide (st < 40)) || metaBad (splitSpace h).2
+
 /-- `_parse_header` -/
-def parseHeader (env : Env) (s : CSt) (h : Bytes) : CSt :=
-  match env.parseInt (splitSpace h).1 with
+def parseHeader (s : CSt) (h : Bytes) : CSt :=
+  match statusOf (splitSpace h).1 with
   | none => setError s "badStatus"
   | some st =>
-    if 10 ≤ st ∧ st < 70 then { s with status := some st, mta := (splitSpace h).2 }
+    if headerBad h st then setError s "badHeader"
+    else if 10 ≤ st ∧ st < 70 then { s with status := some st, mta := (splitSpace h).2 }
     else setError { s with status := some st, mta := (splitSpace h).2 } "statusRange"
 
 def capCheck (s : CSt) : CSt :=
@@ -117,7 +133,7 @@ def afterHeader (s : CSt) : CSt :=
 /-- the buffer holds a complete header line ending at index `i` -/
 def onHeader (env : Env) (s : CSt) (i : Nat) : CSt :=
   if env.utf8Ok (s.buf.take i) then
-    afterHeader { parseHeader env s (s.buf.take i) with buf := s.buf.drop (i + 2), headerReceived := true }
+    afterHeader { parseHeader s (s.buf.take i) with buf := s.buf.drop (i + 2), headerReceived := true }
   else crash s
 
 /-- `data_received` -/
@@ -133,7 +149,7 @@ def onData (env : Env) (s : CSt) (c : Bytes) : CSt :=
       else onHeader env { s with buf := s.buf ++ c } i
 
 /-- body decoding at the end of a 2x response -/
-def deliver (env : Env) (s : CSt) (st : Int) : CSt :=
+def deliver (env : Env) (s : CSt) (st : Nat) : CSt :=
   if env.isText s.mta ∧ s.decodeText then
     match env.decodeBody s.mta s.buf with
     | 0 => { s with fut := .response st s.mta (some s.buf) true }
@@ -166,7 +182,7 @@ def crun (env : Env) (evs : List CEv) : CSt := crunFrom env (init true) evs
 
 /-! ## termination: a lost connection always resolves the call -/
 
-theorem deliver_resolved (env : Env) (s : CSt) (st : Int) : (deliver env s st).fut ≠ .pending := by
+theorem deliver_resolved (env : Env) (s : CSt) (st : Nat) : (deliver env s st).fut ≠ .pending := by
   unfold deliver
   split
   · split <;> simp
@@ -204,14 +220,16 @@ theorem tooLong_keep (s : CSt) (h : s.fut ≠ .pending) : (tooLong s).fut = s.fu
 
 theorem crash_keep (s : CSt) (h : s.fut ≠ .pending) : (crash s).fut = s.fut := setError_keep s _ h
 
-theorem parseHeader_keep (env : Env) (s : CSt) (l : Bytes) (h : s.fut ≠ .pending) :
-    (parseHeader env s l).fut = s.fut := by
+theorem parseHeader_keep (s : CSt) (l : Bytes) (h : s.fut ≠ .pending) :
+    (parseHeader s l).fut = s.fut := by
   unfold parseHeader
   split
   · exact setError_keep s _ h
   · split
-    · rfl
-    · exact setError_keep _ _ h
+    · exact setError_keep s _ h
+    · split
+      · rfl
+      · exact setError_keep _ _ h
 
 theorem afterHeader_keep (s : CSt) (h : s.fut ≠ .pending) : (afterHeader s).fut = s.fut := by
   unfold afterHeader
@@ -224,7 +242,7 @@ theorem afterHeader_keep (s : CSt) (h : s.fut ≠ .pending) : (afterHeader s).fu
 theorem onHeader_keep (env : Env) (s : CSt) (i : Nat) (h : s.fut ≠ .pending) : (onHeader env s i).fut = s.fut := by
   unfold onHeader
   split
-  · have hp := parseHeader_keep env s (s.buf.take i) h
+  · have hp := parseHeader_keep s (s.buf.take i) h
     rw [afterHeader_keep _ (by simpa [hp] using h)]
     exact hp
   · exact crash_keep s h
@@ -268,7 +286,7 @@ theorem resolves_after_lost (env : Env) (s0 : CSt) (pre post : List CEv) (e : Bo
   have h := lost_resolves env (pre.foldl (cstep env) s0) e
   rw [run_stable env _ post h]; exact h
 
-example : (crun ⟨fun _ => true, fun _ => some 20, fun _ => true, fun _ _ => 2⟩
+example : (crun ⟨fun _ => true, fun _ => true, fun _ _ => 2⟩
     [.data [50, 48, 32, 120, 13, 10, 104, 105], .lost false]).fut = .error "charset" := by decide
 
 /-! ## a parsed status is in range while the call is pending; responses come from `connection_lost` -/
@@ -303,17 +321,19 @@ theorem capCheck_pending (s : CSt) (h : (capCheck s).fut = .pending) : s.fut = .
   · exact absurd h (setError_pending s _)
   · exact h
 
-theorem parseHeader_inv (env : Env) (s : CSt) (l : Bytes) (hs : s.status = none) : StatusInv (parseHeader env s l) := by
+theorem parseHeader_inv (s : CSt) (l : Bytes) (hs : s.status = none) : StatusInv (parseHeader s l) := by
   unfold parseHeader
   split
   · intro st h1 _; rw [setError_status, hs] at h1; simp at h1
   · rename_i st hst
     split
-    · rename_i hr
-      intro st' h1 _
-      simp only [Option.some.injEq] at h1; subst h1; exact hr
-    · intro st' _ h2
-      exact absurd h2 (setError_pending _ _)
+    · intro st h1 _; rw [setError_status, hs] at h1; simp at h1
+    · split
+      · rename_i hr
+        intro st' h1 _
+        simp only [Option.some.injEq] at h1; subst h1; exact hr
+      · intro st' _ h2
+        exact absurd h2 (setError_pending _ _)
 
 theorem afterHeader_status (s : CSt) : (afterHeader s).status = s.status := by
   unfold afterHeader
@@ -346,7 +366,7 @@ theorem onHeader_inv (env : Env) (s : CSt) (i : Nat) (hs : s.status = none) (hh 
     Inv (onHeader env s i) := by
   unfold onHeader
   split
-  · have hpi := parseHeader_inv env s (s.buf.take i) hs
+  · have hpi := parseHeader_inv s (s.buf.take i) hs
     refine ⟨fun st h1 h2 => ?_, fun hf => ?_⟩
     · rw [afterHeader_status] at h1
       have h3 := afterHeader_pending _ h2
@@ -430,13 +450,15 @@ theorem capCheck_noResp (s : CSt) (h : NoResp s.fut) : NoResp (capCheck s).fut :
   · exact setError_noResp s _ h
   · exact h
 
-theorem parseHeader_noResp (env : Env) (s : CSt) (l : Bytes) (h : NoResp s.fut) : NoResp (parseHeader env s l).fut := by
+theorem parseHeader_noResp (s : CSt) (l : Bytes) (h : NoResp s.fut) : NoResp (parseHeader s l).fut := by
   unfold parseHeader
   split
   · exact setError_noResp s _ h
   · split
-    · exact h
-    · exact setError_noResp _ _ h
+    · exact setError_noResp s _ h
+    · split
+      · exact h
+      · exact setError_noResp _ _ h
 
 theorem afterHeader_noResp (s : CSt) (h : NoResp s.fut) : NoResp (afterHeader s).fut := by
   unfold afterHeader
@@ -460,12 +482,12 @@ theorem onData_noResp (env : Env) (s : CSt) (c : Bytes) (h : NoResp s.fut) : NoR
         · exact setError_noResp _ _ h
         · unfold onHeader
           split
-          · exact afterHeader_noResp _ (parseHeader_noResp env _ _ h)
+          · exact afterHeader_noResp _ (parseHeader_noResp _ _ h)
           · exact setError_noResp _ _ h
 
 /-- a response is produced only by `connection_lost`, from the status parsed earlier; it carries a body
     exactly for 2x, and that body is the buffer (the bytes received after the header line) -/
-theorem response_origin (env : Env) (s : CSt) (ev : CEv) (hp : s.fut = .pending) (st : Int) (m : Bytes) (b : Option Bytes) (d : Bool)
+theorem response_origin (env : Env) (s : CSt) (ev : CEv) (hp : s.fut = .pending) (st : Nat) (m : Bytes) (b : Option Bytes) (d : Bool)
     (h : (cstep env s ev).fut = .response st m b d) :
     s.status = some st ∧ m = s.mta ∧ (b ≠ none ↔ (20 ≤ st ∧ st < 30)) ∧ (∀ x, b = some x → x = s.buf) := by
   cases ev with
